@@ -1008,3 +1008,41 @@ func paramOfYield(f *ssa.Function) *ssa.Parameter {
 	}
 	return nil
 }
+
+// checkReplayReadsCurrentStore (C11.R2): the store Replay reads — through ReadStream or
+// Read, in Replay or a helper — is the bus's current store: the receiver of those calls
+// originates from the bus's store field only (also through a type assertion). A cached
+// copy of the store, or of its streaming view, keeps pointing at a store that was replaced.
+func checkReplayReadsCurrentStore(c *Ctx, p *Prog, R *BusRoles, rule string) {
+	root := p.Method(PkgBus, "EventBus", "Replay")
+	if root == nil {
+		return
+	}
+	e := NewEngine(p)
+	flow := NewFlow(p, e.cells)
+	want := "field:EventBus." + R.BusStore
+	n := 0
+	for _, g := range reachFuncs(p, root, PkgBus) {
+		for _, b := range g.Blocks {
+			for _, in := range b.Instrs {
+				call, ok := in.(*ssa.Call)
+				if !ok || !call.Common().IsInvoke() {
+					continue
+				}
+				m := call.Common().Method.Name()
+				if m != "ReadStream" && m != "Read" {
+					continue
+				}
+				tn := typeName(call.Common().Value.Type())
+				if tn != "EventStore" && tn != "EventStoreStreamer" {
+					continue
+				}
+				n++
+				os := flow.Origins(call.Common().Value)
+				okAll, bad := onlyOrigins(os, want)
+				c.Check(okAll && len(os) > 0, rule, fmt.Sprintf("Replay/%s#%d/reads-the-current-store", m, n), p.Pos(in.Pos()), "the receiver is the bus's store field", "Replay reads "+m+" from a value that is not the bus's current store (origin "+bad+"): after the store was replaced (a later WithStore) it replays the displaced store, or nothing")
+			}
+		}
+	}
+	c.Floor(rule, "store reads in Replay", n, 2)
+}
